@@ -173,6 +173,16 @@ def run_case(case, ctx):
                 return
             except Exception:
                 pass
+            if case["entry"] == "notify":
+                # a notification that is not a data event for this statistic is an invalid observation as well
+                for what, ev in (("weight-event", Event(StatEvents.WEIGHT_DATA_EVENT, 3)), ("tuple-content", Event(StatEvents.DATA_EVENT, (1, 2)))):
+                    ctx.count("malformed_notifications")
+                    try:
+                        t.notify(ev)
+                        ctx.viol(f"invalid-observation-accepted:notify:{what}", where)
+                        return
+                    except Exception:
+                        pass
             after = fx(list(_safe_getters(ctx, t, counter, where).values()))
             if before != after:
                 ctx.viol("rejected-input-changed-getters", {**where, "before": before, "after": after})
